@@ -305,6 +305,83 @@ end
 return "no-reference-in-error-values" """, ["py:Wtp"], "", "errors")
 
 
+# ---- references carried by return values ----------------------------------------------------
+# A helper may hand back a live host object (a Page of the store's memo, the context, a mutable
+# container) instead of text: the attack builds title objects for every kind of page the store holds
+# (ordinary, redirect with an existing target, dangling redirect, missing, module), calls every function
+# it can reach with a few argument vectors, and walks the RETURNED values raw (next/rawget: private
+# fields, no metamethods) looking for userdata that answers to data attributes of host objects.
+atk("return_value_references", """
+local cur = mw.title.getCurrentTitle()
+local ATTRS = {"body", "redirect_to", "namespace_id", "need_pre_expand", "model", "db_conn", "db_path", "lua", "errors", "cookies", "expand_stack"}
+local found, seen = nil, {}
+local function is_host(u)
+  if type(u) ~= "userdata" then return nil end
+  for _, a in ipairs(ATTRS) do
+    local ok, v = pcall(function() return u[a] end)
+    if ok and v ~= nil then return a end
+  end
+  return nil
+end
+local function scan(v, depth, how)
+  if found or depth > 5 then return end
+  if type(v) == "userdata" then
+    local a = is_host(v)
+    if a then found = {how = how, attr = a, obj = v} end
+    return
+  end
+  if type(v) ~= "table" or seen[v] then return end
+  seen[v] = true
+  local k, x = next(v)
+  while k ~= nil and not found do
+    scan(x, depth + 1, how .. "/" .. tostring(k))
+    if type(k) ~= "string" and type(k) ~= "number" then scan(k, depth + 1, how .. "/<key>") end
+    k, x = next(v, k)
+  end
+end
+local names = {"Template:C06rdr", "Template:C06dang", "Template:C06tgt", "Template:C06none", "Module:c06victim", cur.fullText}
+local cands = { {}, {cur.fullText}, {cur}, {""}, {0}, {frame} }
+for _, n in ipairs(names) do
+  table.insert(cands, {n})
+  local ns, text = n:match("^(%a+):(.*)$")
+  for _, t in ipairs({try(mw.title.new, n), ns and try(mw.title.makeTitle, ns, text) or nil}) do
+    if type(t) == "table" then
+      for _, prop in ipairs({"exists", "isRedirect", "redirectTarget", "contentModel", "id", "basePageTitle", "rootPageTitle", "talkPageTitle", "subjectPageTitle"}) do
+        scan(try(function() return t[prop] end), 0, n .. "." .. prop)
+      end
+      scan(try(function() return t:getContent() end), 0, n .. ":getContent()")
+      scan(t, 0, n)
+      table.insert(cands, {t})
+    end
+  end
+end
+local walked = {}
+local function walk(t, depth, how)
+  if found or depth > 3 or walked[t] then return end
+  walked[t] = true
+  for k, v in pairs(t) do
+    if type(v) == "function" then
+      if type(k) ~= "string" or not (k:find("exit") or k:find("reset") or k:find("set_") or k:find("clear") or k == "error" or k == "assert" or k == "pcall" or k == "xpcall") then
+        for _, args in ipairs(cands) do
+          local r = { pcall(v, unpack(args)) }
+          if r[1] then for i = 2, #r do scan(r[i], 0, how .. "." .. tostring(k) .. "()") end end
+          if found then return end
+        end
+      end
+    elseif type(v) == "table" then walk(v, depth + 1, how .. "." .. tostring(k))
+    elseif type(v) == "userdata" then scan(v, 0, how .. "." .. tostring(k)) end
+    if found then return end
+  end
+end
+pcall(walk, mw, 0, "mw")
+pcall(walk, frame, 0, "frame")
+if found then
+  local wrote = pcall(function() found.obj[found.attr] = found.obj[found.attr] end)
+  return W("host-object-in-return-value:" .. found.how .. " attr=" .. found.attr .. " writable=" .. tostring(wrote))
+end
+return "no-host-object-in-return-values" """, ["py:Page", "py:Wtp"], "", "returns")
+
+
 def module_source(a) -> str:
     return "local p = {}\nfunction p.main(frame)\n" + PRELUDE + a["body"] + "\nend\nreturn p\n"
 
